@@ -336,12 +336,15 @@ def ch_segserve(ctx) -> Channel:
     import appboot
     import segchecks
     ch = Channel("segserve", rule=(
-        "live manifests of the real app (streams bbb, tears + synthetic irregular/drifting syn1, syn2; 5 "
-        "templates; $Time$ and $Number$ addressing; start=epoch|year|month|today|explicit; clocks 2021..2031 "
-        "so presentation times exceed 2^32 ticks) -> listed/in-window URLs fetched at the same clock -> "
-        "tfdt, mfhd, sum of trun durations, mdat payload read with the independent walker; compared with the "
-        "model's liveIndex/servedTfdt prediction and with the property text; non-trivial = status 200 media "
-        "segment; distinct by (url, clock, representation, value)"))
+        "live manifests of the real app (streams bbb, tears, syn1..syn5, syn7..syn10: irregular/drifting tracks, "
+        "fragments numbered from 0, 7, with gaps and from different values per track, NTSC, two segments, stored "
+        "stream defaults, default sample durations; 5 templates; $Time$ and $Number$ addressing; "
+        "start=epoch|year|month|today|explicit|very old; options that travel with the media URLs; fixed grids: first "
+        "pass through the media, whole days + < 1 s, media requests 3-7 s after the manifest across symbolic-start "
+        "boundaries, 2^31/2^32/2^33 ticks, same clock for two streams) -> listed/in-window URLs fetched through the "
+        "manifest's own URLs -> tfdt, mfhd, sum of trun durations, mdat payload read with the independent walker; "
+        "compared with the model's liveIndex/servedTfdt/servedSeq prediction and with the property text (startNumber "
+        "as advertised); non-trivial = status 200 media segment; distinct by (url, clock, representation, value)"))
     app = segchecks.get_app()
     client = app.client()
     rng = ctx.rng("segserve")
